@@ -1333,14 +1333,14 @@ Print Assumptions T02p_old_iter_generator_refuted.
 
 (* the rule before 608b244 (names of lists): the loop body mutates what it iterates over (F02-65) *)
 Theorem T02p_old_iter_snapshot_refuted :
-  exists W fuel p, obs (run W fuel (rri_before_116947d p)) <> obs (run W fuel p).
-Proof. exact rri_before_116947d_refuted. Qed.
+  exists W fuel p, obs (run W fuel (rri_before_608b244 p)) <> obs (run W fuel p).
+Proof. exact rri_before_608b244_refuted. Qed.
 Print Assumptions T02p_old_iter_snapshot_refuted.
 
 Example T02p_iter_examples :
   rri p_interleave = p_interleave /\ rri p_snapshot = p_snapshot /\
   obs (run W12 5 p_snapshot) = (None, [EvPrint (RList [])]) /\
-  obs (run W12 5 (rri_before_116947d p_snapshot)) = (None, [EvPrint (RList [2%Z])]).
+  obs (run W12 5 (rri_before_608b244 p_snapshot)) = (None, [EvPrint (RList [2%Z])]).
 Proof. repeat split; reflexivity. Qed.
 
 (* optimize_contains_types, the wrapper part ('a in list(c)' -> 'a in c', 'a in [c for c in xs]' -> generator;
@@ -1368,7 +1368,7 @@ Print Assumptions T02p_old_contains_consumption_refuted.
 
 Theorem T02p_old_contains_lazy_refuted :
   exists W fuel p, obs (run W fuel (oct_before_2835a2e p)) <> obs (run W fuel p).
-Proof. exact oct_before_1454583_refuted. Qed.
+Proof. exact oct_before_cf0e3b9_refuted. Qed.
 Print Assumptions T02p_old_contains_lazy_refuted.
 
 Example T02p_contains_examples :
@@ -1436,7 +1436,7 @@ Import ZArith.
 Import ListNotations.
 Import Pyrefact.RulesIdxModel Pyrefact.RulesIdxProofs.
 
-(* replace_subscript_looping, as the code is after 6ebed2a, anywhere in an expression (used = the names written in
+(* replace_subscript_looping, as the code is after 63d3448, anywhere in an expression (used = the names written in
    the module, covers: it lists at least those of e): same value / same exception class in every environment where, at
    each rewritten comprehension, x is not the index and x holds a list, a tuple or nothing iterable at all *)
 Theorem T02i_subscript_looping_partial : forall en used e,
@@ -1463,11 +1463,11 @@ Theorem T02i_subscript_looping_iterator_refuted :
 Proof. exact sub_iterator_refuted. Qed.
 Print Assumptions T02i_subscript_looping_iterator_refuted.
 
-(* F02idx-2, the rule before 6ebed2a: the new name x_i captures a variable of that name; the repaired rule leaves the
+(* F02idx-2, the rule before 63d3448: the new name x_i captures a variable of that name; the repaired rule leaves the
    witness alone *)
 Theorem T02i_old_subscript_looping_capture_refuted :
-  exists en used e, covers used e = true /\ sub used e = e /\ eval en (sub_before_6ebed2a used e) <> eval en e.
-Proof. exact sub_before_6ebed2a_refuted. Qed.
+  exists en used e, covers used e = true /\ sub used e = e /\ eval en (sub_before_63d3448 used e) <> eval en e.
+Proof. exact sub_before_63d3448_refuted. Qed.
 Print Assumptions T02i_old_subscript_looping_capture_refuted.
 
 (* the rule before b71cf14: the index used on its own is no longer bound; the repaired rule leaves the witness alone *)
@@ -1483,7 +1483,7 @@ Example T02i_sub_examples :
   covers (used_of en_list e1) e1 = true /\ sub_ok en_list e1 = true /\
   eval en_list e1 = Ok (VList [VInt 2; VInt 3]) /\
   eval en_dict e_simple = Err KeyErr /\ eval en_dict (sub (used_of en_dict e_simple) e_simple) = Ok (VList [VInt 1]) /\
-  sub_before_6ebed2a (used_of en_capture e_capture) e_capture
+  sub_before_63d3448 (used_of en_capture e_capture) e_capture
   = EFor (join 0%nat 1%nat) 0%nat (BAdd (BVar (join 0%nat 1%nat)) (BVar (join 0%nat 1%nat))).
 Proof. repeat split; reflexivity. Qed.
 
@@ -1556,10 +1556,10 @@ Theorem T02i_inline_math_partial : forall W pre y v mid z ln post,
 Proof. exact inl_partial. Qed.
 Print Assumptions T02i_inline_math_partial.
 
-(* F02idx-6, the rule before 0eb93cc: a call inside the value runs twice; the repaired rule leaves the module alone *)
+(* F02idx-6, the rule before 07a567e: a call inside the value runs twice; the repaired rule leaves the module alone *)
 Theorem T02i_old_inline_math_twice_refuted :
-  exists W p, inl p = p /\ obs (run_i W (inl_before_0eb93cc p)) <> obs (run_i W p).
-Proof. exact inl_before_0eb93cc_refuted. Qed.
+  exists W p, inl p = p /\ obs (run_i W (inl_before_07a567e p)) <> obs (run_i W p).
+Proof. exact inl_before_07a567e_refuted. Qed.
 Print Assumptions T02i_old_inline_math_twice_refuted.
 
 (* F02idx-7: the iterator the value is computed from is used up by the first evaluation *)
